@@ -27,16 +27,16 @@ ACTIONS = ["Open", "Spawn", "Leave", "End", "Fail", "Cancel", "CtxCancel", "Chec
 
 def run(rep, work, tier, seed):
     if tier == "quick":
-        mc = dict(NTasks=4, MaxDepth=2, MaxScopes=3, MaxOps=8, Bug="none")
-        conf = dict(NTasks=3, MaxDepth=2, MaxScopes=3, MaxOps=6, Bug="none")
+        mc = dict(NTasks=4, MaxDepth=2, MaxScopes=3, MaxOps=8, Bug="none", Turn=False)
+        conf = dict(NTasks=3, MaxDepth=2, MaxScopes=3, MaxOps=6, Bug="none", Turn=False)
     else:
-        mc = dict(NTasks=5, MaxDepth=2, MaxScopes=4, MaxOps=8, Bug="none")
-        conf = dict(NTasks=4, MaxDepth=2, MaxScopes=3, MaxOps=7, Bug="none")
+        mc = dict(NTasks=5, MaxDepth=2, MaxScopes=4, MaxOps=8, Bug="none", Turn=False)
+        conf = dict(NTasks=4, MaxDepth=2, MaxScopes=3, MaxOps=7, Bug="none", Turn=False)
     rep.extra["constants"] = dict(model=mc, conformance=conf)
     leg_m(rep, work, SPEC, f"mc_{tier}", cfg_text(mc, spec="Spec", invariants=INVS, properties=PROPS),
           expect_actions=ACTIONS, timeout=3000)
     if tier == "thorough":
-        small = dict(NTasks=3, MaxDepth=2, MaxScopes=2, MaxOps=5)
+        small = dict(NTasks=3, MaxDepth=2, MaxScopes=2, MaxOps=5, Turn=False)
         leg_mutant(rep, work, SPEC, "mutant_no_wait", cfg_text(dict(small, Bug="no_wait"), invariants=INVS), ["NoOrphans"])
         leg_mutant(rep, work, SPEC, "mutant_will_detached", cfg_text(dict(small, MaxOps=6, Bug="will_detached"), invariants=INVS),
                    ["NoEscape"])
